@@ -30,6 +30,14 @@ NUM = r"(0x[0-9a-fA-F_]+|0b[01_]+|[0-9][0-9_]*)(?:u8|u16|u32|u64|usize)?"
 def const(src, name, default, warnings):
     m = re.search(r"const\s+" + name + r"\s*:\s*\w+\s*=\s*" + NUM + r"\s*;", src)
     if not m:
+        # simple constant expressions such as `0x80000000 - 1` or `1 << 31`
+        m2 = re.search(r"const\s+" + name + r"\s*:\s*\w+\s*=\s*([0-9a-fA-FxX_ \-+<*()]+);", src)
+        if m2:
+            try:
+                expr = re.sub(r"(?<=[0-9a-fA-F])_(?=[0-9a-fA-F])", "", m2.group(1))
+                return int(eval(expr, {"__builtins__": {}}, {}))
+            except Exception:
+                pass
         warnings.append("constant %s not located; kept default %d" % (name, default))
         return default
     return num(m.group(1))
@@ -88,6 +96,38 @@ def generate():
         else:
             warnings.append("type id of %s not located; kept default %d" % (nm, dflt))
             tids[nm] = dflt
+
+    # user control event codes (serialize and deserialize tables), bandwidth limit codes, SetChunkSize bound
+    uc = read("rtmp/src/messages/types/user_control.rs")
+    uc_names = {"StreamBegin": 0, "StreamEof": 1, "StreamDry": 2, "SetBufferLength": 3, "StreamIsRecorded": 4,
+                "PingRequest": 6, "PingResponse": 7, "BufferEmpty": 31, "BufferReady": 32}
+    ser_part = uc.split("pub fn deserialize")[0]
+    de_part = uc.split("pub fn deserialize")[1].split("let mut stream_id")[0] if "pub fn deserialize" in uc else ""
+    for nm, dflt in uc_names.items():
+        m2 = re.search(r"UserControlEventType::" + nm + r"\s*=>\s*\{?\s*write_\w+\(\s*&mut\s+\w+\s*,\s*" + NUM, ser_part)
+        if m2:
+            items.append(("UC_" + nm, num(m2.group(1)), "user_control.rs serialize"))
+        else:
+            warnings.append("user control code (serialize) of %s not located" % nm)
+            items.append(("UC_" + nm, dflt, "user_control.rs serialize (default)"))
+        m3 = re.search(NUM + r"\s*=>\s*UserControlEventType::" + nm + r"\b", de_part)
+        if m3:
+            items.append(("UCD_" + nm, num(m3.group(1)), "user_control.rs deserialize"))
+        else:
+            warnings.append("user control code (deserialize) of %s not located" % nm)
+            items.append(("UCD_" + nm, dflt, "user_control.rs deserialize (default)"))
+    bw = read("rtmp/src/messages/types/set_peer_bandwidth.rs")
+    for nm, dflt in (("Hard", 0), ("Soft", 1), ("Dynamic", 2)):
+        m2 = re.search(r"PeerBandwidthLimitType::" + nm + r"\s*=>\s*" + NUM, bw)
+        items.append(("LIMIT_" + nm, num(m2.group(1)) if m2 else dflt, "set_peer_bandwidth.rs serialize"))
+        if not m2:
+            warnings.append("limit code (serialize) of %s not located" % nm)
+        m3 = re.search(NUM + r"\s*=>\s*PeerBandwidthLimitType::" + nm + r"\b", bw)
+        items.append(("LIMITD_" + nm, num(m3.group(1)) if m3 else dflt, "set_peer_bandwidth.rs deserialize"))
+        if not m3:
+            warnings.append("limit code (deserialize) of %s not located" % nm)
+    scs = read("rtmp/src/messages/types/set_chunk_size.rs")
+    items.append(("MAX_CHUNK_SIZE_MSG", const(scs, "MAX_SIZE", 2147483647, warnings), "set_chunk_size.rs MAX_SIZE"))
 
     lines = ["(* GENERATED by lib/gen_consts.py from /repo sources - do not edit. *)",
              "From Coq Require Import NArith List.", "Import ListNotations.", "Open Scope N_scope.", ""]
